@@ -100,6 +100,19 @@ Theorem C15_conservation :
 Proof. exact conservation_step. Qed.
 Print Assumptions C15_conservation.
 
+(** An accepted Mint / Burn / SetDenomMetadata was signed by the admin on record; an accepted
+    ChangeAdmin additionally leaves exactly the named successor on record (also when the successor is
+    the creator again). *)
+Theorem C15_accepted_admin_message_signed_by_admin :
+  forall blocked s o s', step blocked s o = Some s' ->
+  match o with
+  | Mint sender d _ _ _ | Burn sender d _ _ _ | SetMeta sender d _ => admins s d = Some sender
+  | ChangeAdmin sender d new _ => admins s d = Some sender /\ admins s' d = Some new
+  | _ => True
+  end.
+Proof. exact step_authority. Qed.
+Print Assumptions C15_accepted_admin_message_signed_by_admin.
+
 (** Stale authority: after a hand-over the former admin is rejected from the very next message. *)
 Theorem C15_former_admin_rejected :
   forall blocked s old d new nv s', step blocked s (ChangeAdmin old d new nv) = Some s' -> new <> old ->
@@ -133,9 +146,9 @@ Proof. exact run_inv. Qed.
 Print Assumptions C15_registry_invariant_preserved.
 
 (** Link to the trace predicate: snapshots of the model around any message satisfy the per-message
-    clauses of [step_P] (lenient form), for any tracked key set that contains the created denom. *)
+    clauses of [step_P] (lenient form), for any tracked key set that contains the message's denom. *)
 Theorem C15_model_satisfies_property_core :
-  forall blocked ds bs s o, inv s -> (forall sender sub, o = Create sender sub -> In (tf_denom sender sub) ds) ->
+  forall blocked ds bs s o, inv s -> In (op_denom o) ds ->
   step_core false blocked (snap_keys ds bs s) o (snd (deliver blocked s o)) (snap_keys ds bs (fst (deliver blocked s o))).
 Proof. exact model_step_core. Qed.
 Print Assumptions C15_model_satisfies_property_core.
